@@ -127,3 +127,88 @@ Proof.
   replace (skipn 2 (lit "00" ++ hexN 4 (word_of_opt w))) with (hexN 4 (word_of_opt w)) by reflexivity.
   rewrite hexN_length. cbn [Nat.eqb negb]. apply temp_s_hexN. exact Ww.
 Qed.
+
+(* ---------------------------------------------------------------- set_tpi_params / parser_1100 *)
+Definition sym_tpi (dom : string) : list sym := slit dom ++ shex 2 ++ shex 2 ++ shex 2 ++ slit "00" ++ shex 4 ++ slit "01".
+Lemma tpi_shapes : spayload_ok V_W 0x1100 (sym_tpi "00") = true /\ spayload_ok V_W 0x1100 (sym_tpi "FC") = true.
+Proof. vm_compute. split; reflexivity. Qed.
+
+Lemma parser_1100_of_fields (X C A B U W T : str) :
+  List.length X = 2%nat -> List.length C = 2%nat -> List.length A = 2%nat -> List.length B = 2%nat ->
+  List.length U = 2%nat -> List.length W = 4%nat -> List.length T = 2%nat ->
+  parser_1100 (X ++ C ++ A ++ B ++ U ++ W ++ T) =
+  match int16 C, int16 A, int16 B with
+  | Some c, Some a, Some b =>
+      if negb (in_quarters c 1 13) || negb (in_quarters a 1 31) || negb (in_quarters b 0 16) then Raise AssertionError
+      else do w <- hex_to_temp_s W;
+           if pbw_ok w then Ok (mk_tpi (if str_eqb (firstn 1 X) (lit "F") then Some X else None) (c / 4) a b U w T) else Raise AssertionError
+  | _, _, _ => Raise ValueError
+  end.
+Proof.
+  intros LX LC LA LB LU LW LT. unfold parser_1100. rewrite !app_length, LX, LC, LA, LB, LU, LW, LT. cbn [Nat.add Nat.eqb negb].
+  rewrite (slice_f2 X C (A ++ B ++ U ++ W ++ T) 2 4 LX LC).
+  rewrite (slice_f3 X C A (B ++ U ++ W ++ T) 4 6) by (rewrite ?app_length, ?LX, ?LC, ?LA; reflexivity).
+  rewrite (slice_f4 X C A B (U ++ W ++ T) 6 8) by (rewrite ?app_length, ?LX, ?LC, ?LA, ?LB; reflexivity).
+  assert (S5 : slice 8 10 (X ++ C ++ A ++ B ++ U ++ W ++ T) = U).
+  { replace (X ++ C ++ A ++ B ++ U ++ W ++ T) with ((X ++ C ++ A ++ B) ++ U ++ (W ++ T)) by (rewrite <- !app_assoc; reflexivity).
+    apply slice_mid; rewrite ?app_length, ?LX, ?LC, ?LA, ?LB, ?LU; reflexivity. }
+  assert (S6 : slice 10 14 (X ++ C ++ A ++ B ++ U ++ W ++ T) = W).
+  { replace (X ++ C ++ A ++ B ++ U ++ W ++ T) with ((X ++ C ++ A ++ B ++ U) ++ W ++ T) by (rewrite <- !app_assoc; reflexivity).
+    apply slice_mid; rewrite ?app_length, ?LX, ?LC, ?LA, ?LB, ?LU, ?LW; reflexivity. }
+  assert (S7 : slice 14 16 (X ++ C ++ A ++ B ++ U ++ W ++ T) = T).
+  { replace (X ++ C ++ A ++ B ++ U ++ W ++ T) with ((X ++ C ++ A ++ B ++ U ++ W) ++ T) by (rewrite <- !app_assoc; reflexivity).
+    apply slice_mid_end; rewrite ?app_length, ?LX, ?LC, ?LA, ?LB, ?LU, ?LW, ?LT; reflexivity. }
+  assert (S0 : slice 0 2 (X ++ C ++ A ++ B ++ U ++ W ++ T) = X) by (apply slice_mid0; exact LX).
+  assert (S1 : slice 0 1 (X ++ C ++ A ++ B ++ U ++ W ++ T) = firstn 1 X).
+  { unfold slice. cbn [skipn Nat.sub]. rewrite firstn_app, LX. cbn [Nat.sub firstn]. apply app_nil_r. }
+  rewrite S0, S1, S5, S6, S7. reflexivity.
+Qed.
+
+(* every proportional band width the decoder admits (1.50 .. 3.00 on the 0.01 grid) is admitted as decoded from its word *)
+Lemma pbw_sweep : forallb (fun k => match hex_to_temp k with Ok t => pbw_ok t | Raise _ => false end) (zrange 151 150) = true.
+Proof. vm_compute. reflexivity. Qed.
+Lemma pbw_in_band k : 150 <= k <= 300 -> exists t, hex_to_temp k = Ok t /\ pbw_ok t = true.
+Proof.
+  intros H. pose proof (proj1 (forallb_forall _ _) pbw_sweep k (in_zrange 151 150 k ltac:(lia))) as E. cbn beta in E.
+  destruct (hex_to_temp k) as [t|e]; [exists t; split; [reflexivity|exact E]|discriminate].
+Qed.
+
+(* built with arguments in the decoder's domain => accepted by the regenerated W|1100 regex and decoded to exactly what was asked *)
+Theorem set_tpi_params_valid dom cyc on off pbw p :
+  dom = 0 \/ dom = 0xFC -> 1 <= cyc <= 12 -> 1 <= on <= 30 -> 0 <= off <= 15 -> (pbw = None \/ exists k, pbw = Some k /\ 150 <= k <= 300) ->
+  set_tpi_params dom cyc on off pbw = Some p ->
+  payload_ok V_W 0x1100 p = true /\
+  exists w, hex_to_temp (word_of_opt pbw) = Ok w /\
+    parser_1100 p = Ok (mk_tpi (if dom =? 0xFC then Some (lit "FC") else None) cyc (on * 4) (off * 4) (lit "00") w (lit "01")).
+Proof.
+  intros Hd Hc Ha Hb Hp H.
+  assert (Ex : exists xs : string, check_idx dom = Some (lit xs) /\ List.length (lit xs) = 2%nat /\ (xs = "00"%string /\ dom = 0 \/ xs = "FC"%string /\ dom = 0xFC)).
+  { destruct Hd as [-> | ->]; [exists "00"%string|exists "FC"%string]; (split; [reflexivity|split; [reflexivity|tauto]]). }
+  destruct Ex as (xs & CI & LX & Hx). unfold set_tpi_params in H. rewrite CI in H. injection H as Hq.
+  assert (Ep : p = lit xs ++ hexN 2 (cyc * 4) ++ hexN 2 (on * 4) ++ hexN 2 (off * 4) ++ lit "00" ++ hexN 4 (word_of_opt pbw) ++ lit "01") by (rewrite <- Hq; reflexivity).
+  rewrite Ep. clear Hq Ep p.
+  assert (Hw : exists w, hex_to_temp (word_of_opt pbw) = Ok w /\ pbw_ok w = true /\ 0 <= word_of_opt pbw < 65536).
+  { destruct Hp as [-> | (k & -> & Hk)].
+    - exists TNone. cbn. repeat split; try reflexivity; lia.
+    - destruct (pbw_in_band k Hk) as (t & E & O). exists t. cbn [word_of_opt]. repeat split; try assumption; lia. }
+  destruct Hw as (w & Ew & Ow & Rw). split.
+  - assert (Sh : spayload_ok V_W 0x1100 (sym_tpi xs) = true) by (destruct Hx as [(-> & _)|(-> & _)]; apply tpi_shapes).
+    apply (spayload_ok_sound V_W 0x1100 (sym_tpi xs) _ Sh). unfold sym_tpi.
+    apply (conc_app _ _ (lit xs) _ (conc_slit xs)). apply (conc_app _ _ (hexN 2 _) _ (conc_hexN 2 _)).
+    apply (conc_app _ _ (hexN 2 _) _ (conc_hexN 2 _)). apply (conc_app _ _ (hexN 2 _) _ (conc_hexN 2 _)).
+    apply (conc_app _ _ (lit "00") _ (conc_slit "00")). apply (conc_app _ _ (hexN 4 _) (lit "01") (conc_hexN 4 _) (conc_slit "01")).
+  - exists w. split; [exact Ew|].
+    rewrite parser_1100_of_fields by (try exact LX; try apply hexN_length; reflexivity).
+    rewrite !int16_hexN by (try lia; change (Z.of_nat 2) with 2; lia).
+    assert (Q1 : in_quarters (cyc * 4) 1 13 = true) by (unfold in_quarters; rewrite Z.mod_mul by lia; cbn [Z.eqb]; lia).
+    assert (Q2 : in_quarters (on * 4) 1 31 = true) by (unfold in_quarters; rewrite Z.mod_mul by lia; cbn [Z.eqb]; lia).
+    assert (Q3 : in_quarters (off * 4) 0 16 = true) by (unfold in_quarters; rewrite Z.mod_mul by lia; cbn [Z.eqb]; lia).
+    rewrite Q1, Q2, Q3. cbn [negb orb]. rewrite temp_s_hexN by exact Rw. rewrite Ew. cbn [bind]. rewrite Ow.
+    rewrite Z.div_mul by lia.
+    destruct Hx as [(-> & ->)|(-> & ->)]; reflexivity.
+Qed.
+
+(* ... but the constructor checks none of this: a cycle rate the decoder does not admit is built all the same (refuted class, KNOWN_FINDINGS.json) *)
+Lemma set_tpi_params_unchecked_refuted :
+  exists p, set_tpi_params 0 13 5 5 None = Some p /\ payload_ok V_W 0x1100 p = true /\ parser_1100 p = Raise AssertionError.
+Proof. eexists. split; [reflexivity|]. vm_compute. split; reflexivity. Qed.
